@@ -1,5 +1,6 @@
 """C11 — the FastOps operator container's bookkeeping always agrees with its contents."""
 from checks import big_scale
+from checks import fault_inj
 from checks import api_cov
 from checks import extra_c11hint
 LEAN_TARGETS = ["QmcProps.C11", "drv_c11", "QmcProps.C11Hint"]
@@ -81,4 +82,5 @@ def main(ck):
     api_cov.run(ck, "c11")   # otherwise unexercised public API, model-free oracles of this property
     big_scale.run(ck, "manyops.onebond")   # large-scale regime (>65536 bonds/ops/slots, release semantics): model-free oracles of the property statements
     big_scale.run(ck, "longstring.ring", tags=["C18"])   # large-scale regime (>65536 bonds/ops/slots, release semantics): model-free oracles of the property statements
+    fault_inj.run(ck, "container")   # fault injection: a public call that panics part-way (bad beta, failing rng/Hamiltonian/callback) under catch_unwind; a surviving object must satisfy the property oracles
     return ck.finish(RULE + extra_c11hint.RULE)
